@@ -325,7 +325,7 @@ def parse_vspec(text: str, path: str) -> dict:
     return specs
 
 
-GHOST_MARK = "//@ghost-snapshot\n"
+GHOST_MARK = "// vx:ghost-snapshot\n"
 GHOST_OK = re.compile(r"^\s*(requires|ensures|invariant|invariant_except_break|ensures|decreases|returns|no_unwind|opens_invariants)\b")
 
 
